@@ -15,6 +15,7 @@ func init() {
 			"FE-ORD/PV-ONCE: stop iff limit > 0 && entries >= limit; entries++ exactly once per emitted entry; limit plumbing from EvalParams",
 			"PV-ALIAS (no in-place rewrite of label values: they may be the container's shared resource attributes); the merge iterator rules of C04 (limit keeps the first records in time order)",
 			"the daemon stream read API (no record lost before the limit applies); LP-OFFLOAD scan (filters after a line-rewriting stage stay in the engine)",
+			"the distinct rule (key = (label, value)); drop/keep delete exactly the selected labels",
 		},
 		NotDecided: []string{"'in time order' across streams depends on the storage delivering records in time order (C04)", "count equality with the number of matches is C01"},
 		Rules: func(r *Run) {
